@@ -659,30 +659,32 @@ func ruleStreamRegistered(c *Ctx) {
 	if nReg == 0 {
 		c.bad("registered-stream-exists", 0, "no function registers a streamed handle on the live log in Server.aofconnM")
 	}
-	// AOFSHRINK kicks every registered follower before the rename
-	sh := c.Func("internal/server", "Server", "aofshrink")
-	if sh == nil {
-		c.und("shrink-kicks-followers", 0, "aofshrink not found")
+	// AOFSHRINK kicks every registered follower before the rename (the rename may sit in a helper that only
+	// aofshrink calls)
+	sh, lit := finalShrinkLit(c)
+	if sh == nil || lit == nil {
+		c.und("shrink-kicks-followers", 0, "aofshrink or its final step (the literal that renames the shrink file) not found")
 		return
 	}
 	info := sh.Info()
-	found := false
-	ast.Inspect(sh.Decl.Body, func(n ast.Node) bool {
-		lit, ok := n.(*ast.FuncLit)
+	helpers := c.calledOnlyFrom("aofshrink")
+	xf := newXFlow(c, info, lit.Body, func(f *types.Func) bool { return helpers[f] && f != sh.Obj })
+	renames := xf.Find(func(n ast.Node) bool {
+		call, ok := n.(*ast.CallExpr)
 		if !ok {
-			return true
+			return false
 		}
-		lfg := newFlowGraph(info, lit.Body)
-		renames := lfg.FindCalls(func(f *types.Func, call *ast.CallExpr) bool {
-			return f != nil && f.Pkg() != nil && f.Pkg().Path() == "os" && f.Name() == "Rename"
-		})
-		if len(renames) == 0 {
-			return true
-		}
-		found = true
-		// the kick loop
-		var kick *ast.RangeStmt
-		inspectNoLit(lit.Body, func(m ast.Node) bool {
+		f := callee(info, call)
+		return f != nil && f.Pkg() != nil && f.Pkg().Path() == "os" && f.Name() == "Rename"
+	})
+	if len(renames) == 0 {
+		c.und("shrink-kicks-followers", lit.Pos(), "no os.Rename in the final step of aofshrink")
+		return
+	}
+	// the kick loop: range over aofconnM closing key and value
+	var kick *ast.RangeStmt
+	scan := func(body ast.Node) {
+		inspectNoLit(body, func(m ast.Node) bool {
 			rs, ok := m.(*ast.RangeStmt)
 			if !ok || selField(info, rs.X) != connM {
 				return true
@@ -705,22 +707,23 @@ func ruleStreamRegistered(c *Ctx) {
 			}
 			return true
 		})
-		if kick == nil {
-			c.bad("shrink-kicks-followers", renames[0].Node.Pos(), "the swap section of aofshrink renames the new log into place without closing every connection and file registered in aofconnM: followers keep streaming the replaced log")
-			return true
-		}
-		// the range statement's header block dominates the rename
-		kl := lfg.LocOfRange(kick)
-		okk := kl.Valid()
-		for _, r := range renames {
-			if !kl.Valid() || !lfg.Dominates(kl, r) {
-				okk = false
-			}
-		}
-		c.check(okk, "shrink-kicks-followers", kick.Pos(), "closing every registered follower connection and file dominates the rename", "the rename of the new log can be reached without the loop that closes the registered followers")
-		return true
-	})
-	if !found {
-		c.und("shrink-kicks-followers", sh.Decl.Pos(), "no function literal with an os.Rename in aofshrink")
 	}
+	scan(lit.Body)
+	for _, h := range xf.helpers {
+		if kick == nil {
+			scan(h.fi.Decl.Body)
+		}
+	}
+	if kick == nil {
+		c.bad("shrink-kicks-followers", renames[0].Pos(), "the swap section of aofshrink renames the new log into place without closing every connection and file registered in aofconnM: followers keep streaming the replaced log")
+		return
+	}
+	kls := xf.Find(func(n ast.Node) bool { return n == ast.Node(kick.X) })
+	okk := len(kls) > 0
+	for _, r := range renames {
+		if len(kls) == 0 || !xf.Dominates(kls[0], r) {
+			okk = false
+		}
+	}
+	c.check(okk, "shrink-kicks-followers", kick.Pos(), "closing every registered follower connection and file dominates the rename", "the rename of the new log can be reached without the loop that closes the registered followers")
 }
